@@ -7,6 +7,15 @@ def unit(name, pkg, harness, run, **kw):
     return d
 
 ROUTE_COMMON = ["route/common_test.go"]
+SCHED = ["vsched", "vsync", "vatomic"]
+ROUTE_RW = [
+    {"files": ["route/picker.go", "route/glob_cache.go", "route/target.go"], "opts": ["-imports", "-stmt"]},
+    {"files": ["route/table.go"], "opts": ["-imports", "-stmt", "-sortrange=t"]},
+]
+def route_sched(name, run, shards=None, **kw):
+    return unit(name, "route", ROUTE_COMMON + ["route/sched_test.go"], run, engines=SCHED, rewrite=ROUTE_RW, race=True,
+                sched_env={"GOMAXPROCS": "2"}, shards=shards or {"quick": 1, "thorough": 1}, **kw)
+
 
 ENGINES = [
     {"name": "vsched", "path": "engine/vsched", "serves_properties": [], "kind_free_text": "E1: cooperative deterministic scheduler + stateless preemption-bounded DFS over real fabio code (sync/atomic/go/chan rewritten by engine/rewrite through a build overlay); free-running -race pass of the same bodies"},
@@ -38,6 +47,18 @@ PROPS = {
         units=[
         unit("c05", "route", ROUTE_COMMON + ["route/c05_test.go"], "^TestVerifC05"),
     ], layers={"quick": ["c05-commands"], "thorough": ["c05-commands"]}),
+    "C06": dict(level="model_checking", engine="vsched",
+        technique="stateless model checking: controlled scheduler + preemption-bounded DFS over the real lookup path; separate free-running -race pass",
+        level_text="Every interleaving (up to the preemption bound reported in the evidence; statement-level scheduling points in picker.go, glob_cache.go, target.go, table.go) of 2-3 concurrent lookups over redirect routes, equal and weighted round-robin routes, a glob cache at its fill and eviction boundaries, and lookups concurrent with SetTable, is executed on the real code and checked: own redirect Location, exact round-robin shares, cache within size and never failing, decisions independent of other requests. The same bodies run free under the race detector.",
+        level_note="Sequentially consistent interleavings at statement granularity of the four rewritten files; weaker memory orderings and races inside other packages are only covered by the -race pass (a monitor over a sample of schedules).",
+        units=[route_sched("c06", "^TestVerifC06")],
+        layers={"quick": ["c06-sched"], "thorough": ["c06-sched"]}),
+    "C02": dict(level="model_checking", engine="vsched",
+        technique="stateless model checking of SetTable vs lookups (controlled scheduler, preemption-bounded DFS) + explicit-state BFS of update histories through the real watchBackend + bounded-exhaustive config texts",
+        level_text="(1) every interleaving up to the reported preemption bound of a writer installing tables with 1-2 readers doing paired lookups, on the real atomic table; (2) every history of valid/invalid service and manual configuration updates up to the reported depth through the real main.watchBackend loop against a reference model of last-good-table; (3) every configuration text of a bounded grammar incl. non-finite, huge and denormal weights, bad globs and URLs through NewTable/NewTableCustom + lookups: error or table, never a panic.",
+        level_note="Interleavings are sequentially consistent at sync-op + statement granularity of route/table.go; update histories are delivered synchronously (causal barrier) so the asynchronous timing of Consul is not modelled here (C01 does).",
+        units=[route_sched("c02-sched", "^TestVerifC02Sched")],
+        layers={"quick": ["c02-sched"], "thorough": ["c02-sched"]}),
 }
 
 def layer_unit(pid, layer):
